@@ -890,6 +890,34 @@ impl Val for Pair {
         self.a as u64 | (self.b as u64) << 32
     }
 }
+/// 16-byte payload: the table slot (hash + payload) is 24 bytes - not a power of two
+#[derive(Copy, Clone, PartialEq, PartialOrd, Debug)]
+struct Wide {
+    a: u64,
+    b: u64,
+}
+impl Val for Wide {
+    fn make(r: u64) -> Wide {
+        Wide { a: r | 1, b: r.rotate_left(17) ^ 0x5a5a }
+    }
+    fn key(&self) -> u64 {
+        self.a ^ self.b
+    }
+}
+/// 12 bytes of payload (padded to 16), as in a typical transposition-table entry
+#[derive(Copy, Clone, PartialEq, PartialOrd, Debug)]
+struct Odd {
+    a: u64,
+    b: u32,
+}
+impl Val for Odd {
+    fn make(r: u64) -> Odd {
+        Odd { a: r | 2, b: (r >> 7) as u32 | 1 }
+    }
+    fn key(&self) -> u64 {
+        self.a ^ self.b as u64
+    }
+}
 impl Val for char {
     fn make(r: u64) -> char {
         std::char::from_u32((r % 0xd800) as u32).unwrap_or('x')
@@ -934,6 +962,39 @@ fn c19_sequence<T: Val>(size: usize, nops: usize, rng: &mut Rng, rep: &mut Repor
     pool.push(0xdead_beef_0000_0000);
     rep.count("ev_sequences");
     rep.count(&format!("ev_size_log2_{}", size.trailing_zeros()));
+    // untouched slots all over the table (also its upper end) must behave as (hash 0, default):
+    // first touch through a value-dependent predicate, then a lookup
+    if size >= 64 {
+        let probes = 24.min(size);
+        for i in 0..probes {
+            let slot = match i % 3 {
+                0 => size - 1 - rng.below(size / 3 + 1),
+                1 => rng.below(size),
+                _ => size / 2 + rng.below(size / 2),
+            } as u64;
+            if model[slot as usize].0 != 0 || pool.iter().any(|h| h % size as u64 == slot) {
+                continue;
+            }
+            let h = (rng.next() & !((size as u64) - 1)) | slot;
+            let v = T::make(rng.next());
+            let seen = std::cell::Cell::new(None::<T>);
+            rep.count("op_replace_if");
+            rep.count("ev_first_touch_of_untouched_slot");
+            table.replace_if(h, v, |x| {
+                seen.set(Some(x));
+                x == default
+            });
+            if seen.get() != Some(default) {
+                rep.violation(&format!("C19/fresh-slot/predicate-sees-non-default/{}", tname), format!("size={} slot={} predicate saw {:?}, default is {:?}", size, slot, seen.get(), default));
+            }
+            model[slot as usize] = (h, v);
+            rep.count("op_get");
+            if table.get(h) != Some(v) {
+                rep.violation(&format!("C19/fresh-slot/conditional-write-lost/{}", tname), format!("size={} slot={} hash={:x}", size, slot, h));
+            }
+            pool.push(h);
+        }
+    }
     let mut seq_hash = size as u64;
     for step in 0..nops {
         let h = *rng.pick(&pool);
@@ -1017,6 +1078,45 @@ fn c19_sequence<T: Val>(size: usize, nops: usize, rng: &mut Rng, rep: &mut Repor
     rep.seen(seq_hash);
 }
 
+/// Statistical probe: one slot is written under hash h0, then `n` other hashes that map to the same
+/// slot are looked up; every one must miss.  A stored key truncated or folded to k bits would produce
+/// about n / 2^k false hits.
+fn c19_false_hit_probe(size: usize, n: u64, rng: &mut Rng, rep: &mut Report) {
+    let mut table: CacheTable<u64> = CacheTable::new(size, 0x1234);
+    let h0 = rng.next();
+    table.add(h0, 99);
+    let mask = size as u64 - 1;
+    let low = h0 & mask;
+    let mut x = rng.next();
+    let mut hits = 0u64;
+    let mut first = 0u64;
+    for _ in 0..n {
+        // xorshift* is plenty here and much cheaper than the case RNG
+        x ^= x >> 12;
+        x ^= x << 25;
+        x ^= x >> 27;
+        let q = (x.wrapping_mul(0x2545F4914F6CDD1D) & !mask) | low;
+        if q == h0 {
+            continue;
+        }
+        if table.get(q).is_some() {
+            hits += 1;
+            if first == 0 {
+                first = q;
+            }
+        }
+    }
+    rep.add("op_get", n);
+    rep.add("ev_false_hit_probes", n);
+    rep.evaluations += n;
+    if hits > 0 {
+        rep.violation("C19/get/false-hit-in-bulk-probe", format!("size={} written under {:x}; {} of {} other hashes of the same slot were answered, first {:x}", size, h0, hits, n, first));
+    }
+    if table.get(h0) != Some(99) {
+        rep.violation("C19/get/lost-value/u64", format!("size={} get({:x}) after the probe", size, h0));
+    }
+}
+
 pub fn run_c19(ctx: &Ctx, rep: &mut Report) {
     let miri = ctx.variant == Variant::Miri;
     let max_log2: u32 = match (ctx.variant, ctx.tier) {
@@ -1065,19 +1165,29 @@ pub fn run_c19(ctx: &Ctx, rep: &mut Report) {
             }
         }
     });
+    // bulk probe for truncated / folded keys: 2^33 lookups per run in the quick tier (2^36 thorough)
+    if ctx.variant == Variant::Native {
+        let per_shard: u64 = if ctx.tier == Tier::Thorough { 1u64 << 32 } else { 1u64 << 29 };
+        ctx.cases(rep, "false-hit-probe", 4, |gid, rng, rep| {
+            let size = [1usize, 2, 1024, 1 << 16][(gid % 4) as usize];
+            c19_false_hit_probe(size, per_shard / 4, rng, rep);
+        });
+    }
     // op sequences: every size 2^0..2^max, several sequences each, three value types
     let reps = ctx.budget(40, 300, 1, 3);
     ctx.cases(rep, "ops", (max_log2 as u64 + 1) * reps, |gid, rng, rep| {
         let k = (gid % (max_log2 as u64 + 1)) as u32;
         let size = 1usize << k;
         let nops = if miri { 60 } else if size > 1 << 18 { 400 } else { 3000 };
-        match gid % 3 {
+        match gid % 5 {
             0 => c19_sequence::<u64>(size, nops, rng, rep, "u64"),
             1 => c19_sequence::<Pair>(size, nops, rng, rep, "pair"),
+            2 => c19_sequence::<Wide>(size, nops, rng, rep, "wide"),
+            3 => c19_sequence::<Odd>(size, nops, rng, rep, "odd"),
             _ => c19_sequence::<char>(size, nops, rng, rep, "char"),
         }
         if gid < 2 {
-            rep.sample(format!("size 2^{}: {} random add/replace_if/get ops over a pool of colliding hashes, value type #{}", k, nops, gid % 3));
+            rep.sample(format!("size 2^{}: {} random add/replace_if/get ops over a pool of colliding hashes, value type #{}", k, nops, gid % 5));
         }
     });
 }
